@@ -435,7 +435,25 @@ type dupSrc struct {
 	hold *blk
 }
 
-func (s *c11) opAdd(b *blk) {
+// overlap: the validation (Add) of a pending block runs while an ancestor is being finalised on
+// another goroutine (a block manager finalises under its own lock while transitions validate in
+// theirs). exec runs the Commit with add started as soon as the Commit waits for the flusher.
+type overlap struct {
+	target *blk // the block being finalised
+	exec   func(add func(), plan getPlan) (forced int, ok bool)
+	finish func()
+}
+
+func (s *c11) opAdd(b *blk) { s.opAddDuring(b, nil) }
+
+func (s *c11) opAddDuring(b *blk, ov *overlap) {
+	s.addBody(b, ov)
+	if ov != nil && !s.rc.Failed() && !s.stop {
+		ov.finish()
+	}
+}
+
+func (s *c11) addBody(b *blk, ov *overlap) {
 	t := s.t
 	b.parentFinalAtAdd = b.parent.state == stFinal
 	// what the chain of b already contains (reference model: a set per chain)
@@ -486,6 +504,10 @@ func (s *c11) opAdd(b *blk) {
 		switch t.Weighted("tx-kind", 6, 4, 4, 1, 1) {
 		case 1:
 			d = pick("dup-unfinal", unfinal)
+			if ov != nil && len(ov.target.txs) > 0 && t.Permille("dup-from-commit-target", 500) {
+				ti := ov.target.txs[t.Choose("dup-target-tx", len(ov.target.txs))]
+				d = &dupSrc{ti, "unfinalised", ov.target}
+			}
 		case 2:
 			d = pick("dup-final", final)
 		case 3:
@@ -534,7 +556,15 @@ func (s *c11) opAdd(b *blk) {
 	s.sc.v.takeGets()
 	var addErr error
 	var cnt int
-	forced, ok := s.sc.runOp(func() { cnt, addErr = b.logger.Add(s.txList(list), false) }, plan)
+	addFn := func() { cnt, addErr = b.logger.Add(s.txList(list), false) }
+	var forced int
+	var ok bool
+	if ov != nil {
+		s.rc.Event("add %s starts while an ancestor is being finalised", b)
+		forced, ok = ov.exec(addFn, plan)
+	} else {
+		forced, ok = s.sc.runOp(addFn, plan)
+	}
 	if !ok {
 		s.rc.Violate("operation-stuck", "add", "%s: Add never returned", b)
 		return
@@ -822,13 +852,63 @@ func (s *c11) opCommit(added []*blk) {
 	if t.Weighted("commit-mode", 3, 1) == 1 {
 		b = added[t.Choose("commit-which", len(added))]
 	}
+	// a pending descendant of b may be validated while b is being finalised; preferably a commit that
+	// takes unfinalised ancestors with it (the longest time inside Commit)
+	var child *blk
+	if t.Permille("commit-overlap-add", 350) {
+		pendingUnder := func(x *blk) (desc []*blk) {
+			for _, o := range s.blocks {
+				if o.state == stPending && o != x && s.alive(o) && s.isAncestorOrSelf(x, o) {
+					desc = append(desc, o)
+				}
+			}
+			return
+		}
+		var deep []*blk
+		for _, a := range added {
+			if a.parent != nil && a.parent.state != stFinal && len(pendingUnder(a)) > 0 {
+				deep = append(deep, a)
+			}
+		}
+		if len(deep) > 0 && t.Permille("commit-overlap-deep", 700) {
+			b = deep[t.Choose("commit-overlap-target", len(deep))]
+		}
+		if desc := pendingUnder(b); len(desc) > 0 {
+			child = desc[t.Choose("commit-overlap-which", len(desc))]
+		}
+	}
 	if !s.sc.v.gated && s.faults && t.Permille("fail-sync-set", 120) {
 		s.sc.v.failNextSyncSet = true
 	}
 	fails0 := s.sc.v.setFails
 	var err error
-	forced, ok := s.sc.runOp(func() { err = b.logger.Commit() }, getPlan{})
-	s.sc.v.failNextSyncSet = false
+	var forced int
+	var ok bool
+	exec := func(add func(), plan getPlan) (int, bool) {
+		fs := []func(){func() { err = b.logger.Commit() }}
+		if add != nil {
+			fs = append(fs, add)
+		}
+		forced, ok = s.sc.runOps(fs, plan)
+		s.sc.v.failNextSyncSet = false
+		return forced, ok
+	}
+	if child != nil {
+		s.rc.Probe("add_overlaps_commit_of_ancestor")
+		if b.parent != nil && b.parent.state != stFinal {
+			s.rc.Probe("add_overlaps_recursive_commit")
+			if s.sc.v.setWaiting.Load() {
+				s.rc.Probe("add_overlaps_recursive_commit_behind_busy_flusher")
+			}
+		}
+		s.opAddDuring(child, &overlap{target: b, exec: exec, finish: func() { s.finishCommit(b, err, forced, ok, fails0) }})
+		return
+	}
+	exec(nil, getPlan{})
+	s.finishCommit(b, err, forced, ok, fails0)
+}
+
+func (s *c11) finishCommit(b *blk, err error, forced int, ok bool, fails0 int) {
 	if !ok {
 		s.rc.Violate("operation-stuck", "commit", "%s: Commit never returned", b)
 		return
